@@ -280,6 +280,30 @@ def nocallback(run, E, reach, cuts):
         run.held('NOCALLBACK', 'Face::Table constructors', '', 'borrowed only in %s' % sorted(callers), False)
 
 
+def noglobal_ast(run, fx):
+    """NOGLOBAL on the declarations themselves, for the code the linked IR of this configuration does not contain (the other VM driver is
+    parsed but not linked): no variable at namespace scope or static data member in src/ is mutable.  A file-scope `exit_status` in
+    call_machine.cpp is written by every thread whose rule program stops early."""
+    n, bad = 0, []
+    seen = set()
+    for v in fx.raw['vars']:
+        if not (v.get('file') or '').startswith('src/') or (v['q'], v['file'], v.get('ln')) in seen:
+            continue
+        seen.add((v['q'], v['file'], v.get('ln')))
+        n += 1
+        if not v.get('const'):
+            bad.append(v)
+    inst = 'no mutable namespace-scope variable in src/'
+    if n < 30:
+        run.broken('NOGLOBAL', inst, 'only %d namespace-scope variables seen' % n)
+    elif bad:
+        v = bad[0]
+        run.violated('NOGLOBAL', inst, '%s:%s' % (v['file'], v.get('ln')), '`%s %s` is a mutable variable with static storage: every thread that shapes writes / reads the same object '
+                     '(it is outside the face, the font and the segment the documentation lets threads share or own)' % (v.get('t'), v['q']))
+    else:
+        run.held('NOGLOBAL', inst, '', '%d namespace-scope / static-member variables, all const' % n)
+
+
 def telescope(run):
     """NOGLOBAL in the telemetry build (cmake -DGRAPHITE2_TELEMETRY=ON): every allocation adds to *telemetry::_category, a process-wide
     pointer into the face being loaded.  Shaping threads allocate concurrently, so the pointer must be back to its pre-load value (null)
@@ -350,6 +374,7 @@ def run(run):
     run.analysed['entry_points'] = len(entries)
     reach, cuts, lazyfn, sw = ER.deepconst(run, E, 'DEEPCONST', entries, lazy_enabled=True)
     ER.noglobal(run, E, 'NOGLOBAL', reach)
+    noglobal_ast(run, fx)
     preload(run, fx)
     namepreload(run, fx)
     from . import c10
